@@ -97,7 +97,9 @@ package http
 
 // serveBulk: the success body (200) is written only after processBulk returned nil,
 // i.e. after every line of the body was handed to the pipeline; on any error the
-// response is an error status and the success body is not written.
+// response is an error status and the success body is not written.  The body is
+// read through the gzip reader whenever Content-Encoding names gzip, in any letter
+// case (content-coding values are case-insensitive, RFC 9110 8.4.1) - and only then.
 
 //@ func (*Plugin).serveBulk
 //@   requires p.params.PipelineSettings.AvgEventSize >= 0
@@ -106,7 +108,11 @@ package http
 //@   ghost bulkDone bool = false
 //@   ghost nwrite int = 0
 //@   ensures nwrite <= 1 && (nwrite == 1 ==> bulkDone && bulkOK)
+//@   ghost enc seq
+//@   ghost gz bool = false
 //@   callee processBulk(rd, m) (err)
+//@     requires len(enc) == 4 && (enc[0] == 'g' || enc[0] == 'G') && (enc[1] == 'z' || enc[1] == 'Z') && (enc[2] == 'i' || enc[2] == 'I') && (enc[3] == 'p' || enc[3] == 'P') ==> gz
+//@     requires gz ==> len(enc) == 4
 //@     set bulkOK := err == nil
 //@     set bulkDone := true
 //@   callee Write(b) (n, err)
@@ -114,10 +120,16 @@ package http
 //@     set nwrite := nwrite + 1
 //@   callee Error(w2, msg, code)
 //@     pure
-//@   callee Get(k)
+//@   callee Get(k) (v)
 //@     pure
-//@   callee acquireGzipReader(rd)
+//@     set enc := v
+//@   callee EqualFold(a, b) (r)
 //@     pure
+//@     ensures b == "gzip" && len(a) == 4 && (a[0] == 'g' || a[0] == 'G') && (a[1] == 'z' || a[1] == 'Z') && (a[2] == 'i' || a[2] == 'I') && (a[3] == 'p' || a[3] == 'P') ==> r
+//@     ensures r ==> len(a) == len(b)
+//@   callee acquireGzipReader(rd) (z, e)
+//@     pure
+//@     set gz := e == nil
 //@   callee putGzipReader(z)
 //@     pure
 
